@@ -59,9 +59,12 @@ class _SocketHub:
         self, socket: thread_socket.ThreadSocket, timeout: Optional[float] = None
     ) -> None:
         """Connects a socket to another"""
+        # NOTE the callbacks should be registered before the socket becomes visible to
+        # others, otherwise a message sent in between is queued where a socket that uses
+        # callbacks never looks.
+        self._add_callbacks(socket)
         self._open_sockets.add(socket.key)
         self._remote_sockets.add(socket.key)
-        self._add_callbacks(socket)
 
         self._wait_for_remote(socket, timeout=timeout)
 
